@@ -198,6 +198,20 @@ def execute(scen):
             apply_step(stack, {"op": "d_assign", "dev": "D", "vec": "IMG", "el": "B0",
                                "value": {"blob_hex": (b"blob%d" % serial[0]).hex(), "format": ".b"}})
 
+        BOOM = '<newTextVector device="D" name="TXT"><oneText name="T0">BOOM</oneText></newTextVector>'
+        NEXT = '<newTextVector device="D" name="TXT"><oneText name="T1">pipelined</oneText></newTextVector>'
+
+        def boom_text(cut):
+            """The message whose handler fails - alone, or (pipelined client) with the beginning of, or the whole of, the
+            client's next message behind it in the same read / line."""
+            if cut < 0.4:
+                return BOOM + "\n"
+            if cut < 0.8:
+                probes["failing_message_followed_by_partial_next"] = probes.get("failing_message_followed_by_partial_next", 0) + 1
+                return BOOM + NEXT[: max(1, int(len(NEXT) * (cut - 0.4) / 0.4))] + "\n"
+            probes["failing_message_followed_by_complete_next"] = probes.get("failing_message_followed_by_complete_next", 0) + 1
+            return BOOM + NEXT + "\n"
+
         def do_fault(kind, cut, who):
             nonlocal fired_registered
             if kind.startswith("tty_"):
@@ -208,7 +222,7 @@ def execute(scen):
                     stack.stdin_file.feed_eof()
                 else:
                     # an error while a message from the TTY peer is handled ends that channel (it *is* the connection)
-                    stack.stdin_file.feed('<newTextVector device="D" name="TXT"><oneText name="T0">BOOM</oneText></newTextVector>\n')
+                    stack.stdin_file.feed(boom_text(cut))
                 tty_dead_at[0] = len(sent_text)
                 faults[kind] = faults.get(kind, 0) + 1
                 return
@@ -233,7 +247,7 @@ def execute(scen):
                 sim.do(p.send, "<<<garbage \x00\xff <defTextVector <oneLight>> &&& " * 3)
                 sim.do(p.close)
             elif kind == "handler_exception":
-                sim.do(p.send, '<newTextVector device="D" name="TXT"><oneText name="T0">BOOM</oneText></newTextVector>\n')
+                sim.do(p.send, boom_text(cut))
             elif kind == "write_raises":
                 # a failing system call: the server's next write() to this peer raises synchronously (and the connection is dead)
                 c.srv_transport.fail_next_write = BrokenPipeError("sim: injected EPIPE in write()")
